@@ -1511,6 +1511,45 @@ void ExpandLine(char const* TokNam, unsigned TokenNum, as_dynstr_t* p_str) {
     (void)ReplaceLineUnchecked(p_str, Token, TokNam, True);
 }
 
+/*!------------------------------------------------------------------------
+ * \fn     ExpandLineTokens(as_dynstr_t *p_str, tTokenTextFnc GetText, void *pUser)
+ * \brief  expand all tokens in line in a single pass from left to right
+ * \param  p_str string to work on
+ * \param  GetText delivers the text for a token number, or NULL if the
+ *         token is not to be expanded
+ * \param  pUser context passed to GetText
+ *
+ * A stored body line contains no control characters other than the two-byte
+ * tokens CompressLine() put there, so reading it from left to right identifies
+ * every token unambiguously.  Expanding one parameter after the other over the
+ * whole line does not: the second byte of a token and the first byte of a
+ * directly following token may form the token of another parameter, and text
+ * that was just inserted would be searched again.
+ * ------------------------------------------------------------------------ */
+
+void ExpandLineTokens(as_dynstr_t* p_str, tTokenTextFnc GetText, void* pUser) {
+    int StrLen = strlen(p_str->p_str);
+    int Pos    = 0;
+
+    while (Pos + 1 < StrLen) {
+        unsigned const Hi    = (unsigned char)p_str->p_str[Pos];
+        unsigned const Lo    = (unsigned char)p_str->p_str[Pos + 1];
+        char const*    pText = NULL;
+
+        if ((Hi >= 1) && (Hi < 32) && (Lo >= 1) && (Lo <= 16)) {
+            pText = GetText(((Hi - 1) << 4) + (Lo - 1), pUser);
+        }
+        if (pText) {
+            int const ReplaceLen = strlen(pText);
+
+            Pos = ReplaceToken(
+                    p_str, pText, Pos, Pos + 2, 2, ReplaceLen, ReplaceLen - 2, &StrLen);
+        } else {
+            Pos++;
+        }
+    }
+}
+
 void KillCtrl(char* Line) {
     char* z;
 
